@@ -55,6 +55,17 @@ def main():
                                   data.Note(message="m"), se, data.SoundEventAnnotation(sound_event=se),
                                   data.SoundEventPrediction(sound_event=se), data.ClipPrediction(clip=clip)]
     objs += [copy.deepcopy(o) for o in objs]
+    # equal twins built differently: defaults passed explicitly, re-validated from a dump, rebuilt from JSON
+    t1x = data.Term(name="x:species", label="Species", definition="d", uri=None, type_of_term="property", comment=None)
+    objs += [t1x, data.Term.model_validate(t1.model_dump()), data.Term.model_validate_json(t1.model_dump_json()),
+             data.Tag(term=t1x, value="a"), data.Tag.model_validate(cands[0].model_dump()), data.Feature(term=t1x, value=1.0),
+             data.Note.model_validate(objs[11].model_dump()) if isinstance(objs[11], data.Note) else data.Note(message="m")]
+    # an equal tag built differently must be encoded like the vocabulary's own tag
+    enc = create_tag_encoder([cands[0], cands[4]])
+    for twin in (data.Tag(term=t1x, value="a"), data.Tag.model_validate(cands[0].model_dump()), data.Tag.model_validate_json(cands[0].model_dump_json())):
+        s.case(None, ("twin", id(twin)))
+        if twin == cands[0] and enc.encode(twin) != 0:
+            s.fail("encode_twin", f"a tag equal to vocabulary tag 0 but built differently encodes to {enc.encode(twin)}")
     for a, b in itertools.combinations(objs, 2):
         s.case(None, ("hash", id(a), id(b)))
         if not C.lemma_hash(a, b):
